@@ -19,5 +19,5 @@
 unsigned long long libwifi_get_epoch(void) {
     struct timespec spec;
     clock_gettime(CLOCK_REALTIME, &spec);
-    return spec.tv_sec * 1000 + spec.tv_nsec / 1000;
+    return spec.tv_sec * 1000000 + spec.tv_nsec / 1000;
 }
